@@ -359,6 +359,26 @@ pub fn swap_history(out: &mut crate::Out, tag: &str, seed: u64, net: NetID, bloc
             d.apply(&[t], 0, json!({"why": format!("withdrawal of more liquidity tokens than the pool issued: {}", w)}));
         }
         d.seal_next(Some(true));
+        // two requests in one block, each within the pool's recorded liquidity, together beyond it (60% + 60%); then one within and one beyond
+        for (salt, parts) in [(89u8, [6u128, 6u128]), (90u8, [3u128, 11u128])] {
+            let liqs = known_pools(&d).iter().find(|x| x.0 == k).map(|x| x.1.liqs).unwrap_or(1_000_000_000);
+            let f = d.faucet(vec![mk_coin(a, liqs / 10 * parts[0], k.liq_token_denom(), &[]), mk_coin(a, liqs / 10 * parts[1], k.liq_token_denom(), &[]),
+                                  mk_coin(a, 60_000_000, Denom::Mel, &[]), mk_coin(a, 61_000_000, Denom::Mel, &[])], 0, salt);
+            if !d.apply(&[f.clone()], 0, json!({"why": "faucet of forged liquidity tokens (two holders)"})) {
+                continue;
+            }
+            let h = d.view().height;
+            let coin = |j: usize| (CoinID::new(f.hash_nosigs(), j as u8), CoinDataHeight { coin_data: f.outputs[j].clone(), height: h });
+            let mut batch = vec![];
+            for j in 0..2usize {
+                let to = d.wal.address(CovKind::New(1));
+                if let Some(t) = d.build(TxKind::LiqWithdraw, &[coin(j), coin(j + 2)], vec![mk_coin(to, f.outputs[j].value.0, k.liq_token_denom(), &[])], 0, k.to_bytes().to_vec(), 0) {
+                    batch.push(t);
+                }
+            }
+            d.apply(&batch, 0, json!({"why": format!("two withdrawals of {}/10 and {}/10 of the pool's recorded liquidity in one block", parts[0], parts[1])}));
+            d.seal_next(Some(true));
+        }
     }
     if big {
         // a pool of MEL and a faucet-made token (the peg does not touch it): two swaps of 2^120 tokens push the token reserve above
